@@ -416,6 +416,8 @@ def _hist_unbinnable(xs):
     import numpy
 
     lo, hi = float(min(xs)), float(max(xs))
+    if max(abs(lo), abs(hi)) <= 1e7:
+        return False        # 50 bins over a range >= 1e-6 (or the +-0.5 window) are well above the ulp here
     if lo == hi:
         lo, hi = lo - 0.5, hi + 0.5
     e = numpy.linspace(lo, hi, PC().DISTOGRAM_BIN_COUNT + 1)
@@ -532,7 +534,7 @@ def _obs_term(case, obs, val, vtype):
     if w is None:
         return None
     cut = None
-    if case.get("cut") is not None and "cut" in obs:
+    if case.get("cut") is not None and "cut" in obs and case.get("rep", 1) == 1:
         s = _profile_term(obs["cut"], val)
         if s is None:
             return None
@@ -595,8 +597,6 @@ def to_coq(case, obs):
             L.boolean(t in NUM_TYPES), L.Z(sc), L.lst(L.opt(None if z is None else L.Z(z)) for z in col), L.nat(rep),
             "(%s : list (Z * N))" % L.lst(L.pair(L.Z(k), L.N(h)) for k, h in sorted(hashes.items())),
             "(%s : list (list Z * list (N * Z)))" % L.lst(hists), o)
-        if rep != 1:
-            term = _big_ord(case, obs, term)
         return (st, term)
     if st == "text":
         o = _obs_term(case, obs, lambda s: L.text(s) if isinstance(s, str) else None, "(list N)")
@@ -619,34 +619,249 @@ def to_coq(case, obs):
     return (st, "(%s, (%s : list ucell), %s, %s)" % (L.boolean(t == "UNTYPED"), L.lst(cells), L.nat(rep), o))
 
 
-def _big_ord(case, obs, term):
-    """Frames above the batch size: the per-batch histograms only matter through being non-empty
-    (the merged histogram is not compared), so the numpy oracle table is replaced by one entry per
-    batch sample carrying a single bin with the whole mass."""
-    t = case["type"]
-    cells = column(case)
+
+
+# ----------------------------------------------------------------------------- generators
+WORDS = ["", "a", "b", "ab", "abc", "abd", "b\u00e9", "\u00e9", "\u00e9a", "zz", "z", "Z", "0", " ", "\x00", "a\x00", "\u20ac", "\u20acuro",
+         "\U0001f600", "\U0001f600!", "\uffff", "\U00010000", "\x7f", "\x80", "\u07ff", "\u0800", "abcdefgh", "abcdefghi", "abcdefgz",
+         "abcdefg\u00e9", "abcdefg", "\u00ff\u00ff\u00ff\u00ff", "\U0010ffff", "na\u00efve", "\u65e5\u672c\u8a9e", "\u65e5\u672c", "x" * 64, "x" * 63 + "y"]
+
+
+def _pool(rng, t, size):
+    """`size` distinct non-null values of type t (as case encodings)."""
+    out = []
+    seen = set()
+
+    def key(v):
+        if t == "DECIMAL":
+            return v[0] * 10 ** (6 - v[1])
+        if t in ("ARRAY", "STRUCT"):
+            return repr(v)
+        return v
+
+    tries = 0
+    while len(out) < size and tries < size * 50:
+        tries += 1
+        if t == "INTEGER":
+            v = rng.choice([0, 1, -1, 2, -2, 7, -7, rng.randint(-50, 50), rng.randint(-10 ** 6, 10 ** 6), rng.randint(-2 ** 40, 2 ** 40)])
+        elif t == "DOUBLE":
+            v = rng.choice([0, 500000, -500000, 1500000, -1500000, 999999, -999999, 1000000, -1000000, 15625 * rng.randint(-640, 640),
+                            rng.randint(-5 * 10 ** 6, 5 * 10 ** 6), rng.randint(-10 ** 10, 10 ** 10)])
+        elif t == "DECIMAL":
+            sc = rng.choice([0, 1, 2, 6])
+            v = [rng.choice([0, 1, -1, 15, -15, 99, -99, rng.randint(-1000, 1000), rng.randint(-10 ** 7, 10 ** 7)]), sc]
+        elif t == "VARCHAR":
+            if rng.random() < 0.6:
+                v = rng.choice(WORDS)
+            else:
+                v = "".join(rng.choice(["a", "b", "c", "z", "\u00e9", "\u20ac", "\U0001f600", " ", "A", "\x00"]) for _ in range(rng.randint(0, 12)))
+        elif t == "BOOLEAN":
+            v = rng.random() < 0.5
+        elif t == "DATE":
+            v = rng.choice([0, 1, -1, 365, -365, 18262, rng.randint(-30000, 30000), rng.randint(-719162, 2932896)])
+        elif t == "TIMESTAMP":
+            v = rng.choice([0, 1, -1, 999999, -999999, 1000000, -1000000, 1500000, -1500000, rng.randint(-10 ** 9, 10 ** 9),
+                            rng.randint(-3 * 10 ** 15, 3 * 10 ** 15), 86400 * MICRO * rng.randint(-20000, 20000)])
+        elif t == "ARRAY":
+            v = [rng.randint(-3, 3) for _ in range(rng.randint(0, 3))]
+        elif t == "STRUCT":
+            v = {"k": rng.randint(-3, 3)}
+        else:
+            v = rng.choice([0, 1, -1, "a", "", "b", ["nan"], rng.randint(-100, 100)])
+        k = key(v)
+        if t == "BOOLEAN" or (is_nan(v)) or k not in seen:
+            seen.add(k) if not isinstance(k, list) else None
+            out.append(v)
+    return out
+
+
+def _sort_key(t):
+    if t == "DECIMAL":
+        return lambda v: v[0] * 10 ** (6 - v[1])
+    if t in ("ARRAY", "STRUCT", "UNTYPED"):
+        return repr
+    return lambda v: v
+
+
+def _column(rng, t, n):
+    shape = rng.choice(["constant", "sorted", "reverse", "unsorted", "unsorted", "few", "many", "runs"])
+    if shape == "constant":
+        vals = _pool(rng, t, 1) * n
+    elif shape in ("sorted", "reverse"):
+        pool = _pool(rng, t, rng.randint(1, max(1, n)))
+        vals = sorted((rng.choice(pool) for _ in range(n)), key=_sort_key(t), reverse=(shape == "reverse"))
+    elif shape == "few":
+        pool = _pool(rng, t, rng.randint(1, 4))
+        vals = [rng.choice(pool) for _ in range(n)]
+    elif shape == "many":
+        pool = _pool(rng, t, n)
+        vals = [pool[i % len(pool)] for i in range(n)]
+        rng.shuffle(vals)
+    elif shape == "runs":
+        pool = _pool(rng, t, rng.randint(1, 6))
+        vals = []
+        while len(vals) < n:
+            vals += [rng.choice(pool)] * rng.randint(1, 5)
+        vals = vals[:n]
+    else:
+        pool = _pool(rng, t, rng.randint(1, max(1, n)))
+        vals = [rng.choice(pool) for _ in range(n)]
+    nulls = rng.choice(["none", "none", "some", "some", "many", "all", "head", "tail"])
+    if nulls == "some":
+        vals = [None if rng.random() < 0.2 else v for v in vals]
+    elif nulls == "many":
+        vals = [None if rng.random() < 0.7 else v for v in vals]
+    elif nulls == "all":
+        vals = [None] * n
+    elif nulls == "head":
+        k = rng.randint(1, n)
+        vals = [None] * k + vals[k:]
+    elif nulls == "tail":
+        k = rng.randint(0, n - 1)
+        vals = vals[:k] + [None] * (n - k)
+    return vals, shape, nulls
+
+
+def _random_case(rng, t=None, nmax=60):
+    t = t or rng.choice(TYPES)
+    n = rng.choice([1, 2, 3, 4, 5, 8, 13, 33, 34, 40, 60, rng.randint(1, nmax), rng.randint(1, nmax), rng.randint(1, 12)])
+    n = min(n, nmax)
+    vals, _, _ = _column(rng, t, n)
+    cut = rng.randint(1, n - 1) if n > 1 else None
+    return {"type": t, "values": vals, "cut": cut}
+
+
+def corpus():
+    # witnesses of the fixed findings
+    yield {"type": "INTEGER", "values": [3, 1, 2], "cut": 1}                                   # F-C15-1 profiling raised TypeError (xxhash 4)
+    yield {"type": "VARCHAR", "values": ["a", "b"], "cut": 1}                                  # F-C15-1
+    yield {"type": "DATE", "values": [0, 18262], "cut": 1}                                     # F-C15-1
+    yield {"type": "UNTYPED", "values": [1, None, "a", None], "cut": 2}                        # F-C15-2 None not counted as missing
+    yield {"type": "UNTYPED", "values": [None], "cut": None}                                   # F-C15-2
+    yield {"type": "INTEGER", "values": [0, 5, 7], "cut": 1}                                   # F-C15-3 minimum 0 discarded by `or INFINITY`
+    yield {"type": "INTEGER", "values": [-5, -7, 0], "cut": 2}                                 # F-C15-3 maximum 0
+    yield {"type": "DOUBLE", "values": [500000, 2500000], "cut": 1}                            # F-C15-3 int(0.5) = 0 is a minimum of 0
+    yield {"type": "VARCHAR", "values": ["", "a"], "cut": 1}                                   # F-C15-3 text minimum 0 ('' encodes to 0)
+    yield {"type": "DATE", "values": [0, 1], "cut": 1}                                         # F-C15-3 epoch 0
+    yield {"type": "VARCHAR", "values": [None, None], "cut": 1}                                # F-C15-4 all-null VARCHAR missing = 0
+    yield {"type": "VARCHAR", "values": [None], "cut": None}                                   # F-C15-4
+    yield {"type": "VARCHAR", "values": ["\u00e9", "zz", "b", "abc", "a", ""], "cut": 3}        # F-C15-5 (DESIGN section 9 witness)
+    yield {"type": "VARCHAR", "values": ["abc", "\u00e9"], "cut": 1}                           # F-C15-5 'abc' encoded above '\u00e9'
+    # every type once, with nulls, and frames crossing the frequent-value / sketch sizes
+    yield {"type": "INTEGER", "values": list(range(40)), "cut": 20}
+    yield {"type": "INTEGER", "values": list(range(31, -1, -1)) + [None], "cut": 32}
+    yield {"type": "VARCHAR", "values": ["w%02d" % (i % 35) for i in range(60)], "cut": 30}
+    yield {"type": "DECIMAL", "values": [[110, 2], [11, 1], None, [-5, 6]], "cut": 2}
+    yield {"type": "TIMESTAMP", "values": [-315619199500000, 1577836800500000, None], "cut": 1}
+    yield {"type": "BOOLEAN", "values": [True, False, None, True], "cut": 2}
+    yield {"type": "ARRAY", "values": [[1, 2], None, []], "cut": 1}
+    yield {"type": "STRUCT", "values": [{"a": 1}, None], "cut": 1}
+    yield {"type": "UNTYPED", "values": [1, ["nan"], None, "a"], "cut": 2}
+    # frames above the 25000-row batch size (from_dataframe adds the batch profiles itself)
     b = PC_batch()
-    hists, seen = [], set()
-    for i in range(0, len(cells), b):
-        data = [v for v in cells[i:i + b] if v is not None]
-        key = tuple(exact(t, v) for v in data)
-        if data and key not in seen:
-            seen.add(key)
-            hists.append((key, len(data)))
-    # the sample lists are long: write them as repetitions of the base column where possible is not
-    # worth the complexity; instead the model is given an oracle keyed on the sample itself only for
-    # frames whose batches are few (<= 3 distinct samples)
-    if len(hists) > 3:
-        return None
-    sc = scale_of(t)
-    col = [None if v is None else exact(t, v) for v in case["values"]]
-    hashes = {}
-    for v in case["values"]:
+    if b <= 30000:
+        r = b // 7 + 1
+        yield {"type": "INTEGER", "values": [3, None, 0, -4, 3, 9, 1], "cut": None, "rep": r}
+        yield {"type": "VARCHAR", "values": ["b", None, "\u00e9", "a", "b", "zz", ""], "cut": None, "rep": r}
+        yield {"type": "UNTYPED", "values": [1, None, "a", None, 2, 3, 4], "cut": None, "rep": r}
+    for w in KNOWN_WITNESSES.values():
+        yield w
+
+
+def exhaustive(tier):
+    """Small scope, complete: every column over a 3-value alphabet + null, 1..L rows, for one
+    representative of each profiler; each with every cut (quads) and designated cut = every k in turn."""
+    import itertools
+
+    L_ = 4 if tier == "quick" else 5
+    alpha = {
+        "INTEGER": [None, 0, -3, 2], "DOUBLE": [None, 0, -500000, 1500000], "VARCHAR": [None, "", "a", "\u00e9"],
+        "BOOLEAN": [None, True, False], "DATE": [None, 0, -1], "UNTYPED": [None, ["nan"], 1], "ARRAY": [None, [], [1]],
+    }
+
+    def it():
+        for t, al in alpha.items():
+            for n in range(1, L_ + 1):
+                for vals in itertools.product(al, repeat=n):
+                    for k in ([None] if n == 1 else range(1, n)):
+                        yield {"type": t, "values": list(vals), "cut": k}
+
+    return it(), f"all columns of 1..{L_} rows over a null + 2-3 value alphabet for INTEGER, DOUBLE, VARCHAR, BOOLEAN, DATE, ARRAY, untyped, every cut designated in turn"
+
+
+def generate(rng, tier):
+    count = 500 if tier == "quick" else 10000
+    for i in range(count):
+        yield _random_case(rng, TYPES[i % len(TYPES)] if i % 2 == 0 else None)
+    # boundary stream: the guarded classes and their neighbourhood
+    for i in range(20 if tier == "quick" else 200):
+        yield _boundary_case(rng)
+
+
+def _boundary_case(rng):
+    r = rng.random()
+    n = rng.randint(1, 6)
+    if r < 0.3:
+        pool = [2 ** 53, -2 ** 53, 2 ** 53 - 1, 2 ** 53 + 1, -2 ** 53 - 1, 2 ** 63 - 1, -2 ** 63, -2 ** 63 + 1, 2 ** 46, 2 ** 47, 2 ** 47 + 64, 0, 1, None]
+        return {"type": "INTEGER", "values": [rng.choice(pool) for _ in range(n)], "cut": None}
+    if r < 0.5:
+        return {"type": "DOUBLE", "values": [rng.choice([["nan"], 0, 1500000, None, -2500000]) for _ in range(n)], "cut": None}
+    if r < 0.8:
+        base = rng.choice(["x", "\u00e9", "ab"]) * 70
+        pool = [base[:63], base[:64], base[:65], base[:64] + "a", base[:64] + "b", base[:70], "y", None]
+        return {"type": "VARCHAR", "values": [rng.choice(pool) for _ in range(n)], "cut": (rng.randint(1, n - 1) if n > 1 else None)}
+    pool = [10 ** 13, 10 ** 13 + 1, 10 ** 13 + 15625, 7 * 10 ** 13, 0, None]
+    return {"type": "DOUBLE", "values": [rng.choice(pool) for _ in range(n)], "cut": None}
+
+
+def search(rng):
+    while True:
+        yield _random_case(rng, nmax=rng.choice([6, 12, 60]))
+
+
+def shrink(case):
+    vals = case["values"]
+    if case.get("rep", 1) != 1:
+        return
+    for i in range(len(vals)):
+        nv = vals[:i] + vals[i + 1:]
+        if nv:
+            c = case.get("cut")
+            yield {"type": case["type"], "values": nv, "cut": (min(c, len(nv) - 1) or None) if c and len(nv) > 1 else None}
+    for i, v in enumerate(vals):
         if v is not None:
-            hashes[exact(t, v)] = _hash32(_seen_value(t, v))
-    o = _obs_term(case, obs, lambda s: (lambda z: None if z is None else L.Z(z))(_render_to_exact(t, s)), "Z")
-    htab = L.lst(L.pair("(%s : list Z)" % L.lst(L.Z(z) for z in key), L.lst([L.pair(L.N(0), L.Z(n))])) for key, n in hists)
-    return "(%s, %s, (%s : list (option Z)), %s, %s, %s, %s)" % (
-        L.boolean(t in NUM_TYPES), L.Z(sc), L.lst(L.opt(None if z is None else L.Z(z)) for z in col), L.nat(int(case["rep"])),
-        "(%s : list (Z * N))" % L.lst(L.pair(L.Z(k), L.N(h)) for k, h in sorted(hashes.items())),
-        "(%s : list (list Z * list (N * Z)))" % htab, o)
+            yield dict(case, values=vals[:i] + [None] + vals[i + 1:])
+
+
+def nontrivial_key(case, obs):
+    t = case["type"]
+    if all(is_null(t, v) for v in case["values"]):
+        return None
+    import json
+
+    return json.dumps(case, sort_keys=True)
+
+
+def classify(case, obs):
+    t = case["type"]
+    cells = case["values"]
+    n = len(cells) * int(case.get("rep", 1))
+    yield "type:" + t
+    yield "rows:" + ("1" if n == 1 else "2-5" if n <= 5 else "6-20" if n <= 20 else "21-60" if n <= 60 else ">batch")
+    nn = sum(1 for v in cells if is_null(t, v))
+    yield "nulls:" + ("none" if nn == 0 else "all" if nn == len(cells) else "some")
+    data = [v for v in cells if not is_null(t, v)]
+    if data and t in ORD_TYPES + ("VARCHAR",):
+        keys = [exact(t, v) for v in data] if t in ORD_TYPES else data
+        d = len(set(keys))
+        yield "distinct:" + ("1" if d == 1 else "2-31" if d < 32 else ">=32")
+        o, tr = _order_spec(keys)
+        yield "shape:" + {None: "constant", 1: "ascending", -1: "descending", 0: "unsorted"}[o]
+        if any(k == 0 for k in keys if not isinstance(k, str)):
+            yield "has-zero"
+        if any(k < 0 for k in keys if not isinstance(k, str)):
+            yield "has-negative"
+        if t == "VARCHAR" and any(ord(ch) > 127 for s in data for ch in s):
+            yield "multi-byte-text"
+    if "raise" in obs:
+        yield "raised:" + obs["raise"]
